@@ -72,6 +72,13 @@ Proof.
       [exfalso; eapply Hp; exact H|exfalso; eapply Hd; exact H].
 Qed.
 
+Lemma build_some_not_listen : forall cx s t s2 r zwp ka tg,
+  tcp_dispatch_build cx s t = Ok (s2, Some r, zwp, ka, tg) -> s_state s <> Listen.
+Proof.
+  intros cx s t s2 r zwp ka tg H E. rewrite build_unfold in H. cbv zeta in H. rewrite E in H.
+  cbn [obind] in H. discriminate.
+Qed.
+
 (* the emitted packet is the built segment with the IP payload length set from it *)
 Definition pkt_of (t : tuple) (hop : Z) (r : tcp_repr) : packet :=
   with_payload_len (mkIp (tu_local_addr t) (tu_remote_addr t) hop 0) r.
@@ -134,14 +141,15 @@ Proof.
        split; [eapply frame_trans; eassumption|]. split; [exact Hinv1|].
        split; [left; exact Hrel1|]. split; [left; eapply frame_trans; eassumption|].
        split; [left; reflexivity|exact I]. }
-  destruct (build_spec _ _ _ _ _ _ _ _ _ Hinv1 Hcx E3) as (Hs2 & Hok).
+  destruct (build_spec _ _ _ _ _ _ _ _ _ Hinv1 Hcx E3) as (Hs2 & Hok & _).
   assert (Hinv2 : inv g1 s2).
   { destruct Hs2 as [->| ->]; [exact Hinv1|eapply inv_txv; [|exact Hinv1]; reflexivity]. }
   destruct e; cbn [negb] in H.
   - (* emit succeeded *)
     destruct (tcp_dispatch_finish cx s2 r zwp ka) as [s3 t4] eqn:E4.
     injection H as <- <- <-.
-    destruct (finish_inv _ _ _ _ _ _ _ _ _ Hinv1 Hs2 Hok E4) as (g' & Hinv' & Hse & Hg' & Hfr').
+    destruct (finish_inv _ _ _ _ _ _ _ _ _ Hinv1 Hs2 Hok (build_some_not_listen _ _ _ _ _ _ _ _ E3) E4)
+      as (g' & Hinv' & Hse & Hg' & Hfr').
     exists g1, s1, g'. split; [exact Hg1|]. split; [exact Hinv1|].
     split; [eapply frame_trans; eassumption|]. split; [exact Hinv'|].
     split.
